@@ -106,3 +106,111 @@ From PSA Require Import Spec.P02.
 Theorem C17_served_versions_are_source : same_set Gen.Constants.gen_served_config_versions served_versions = true.
 Proof. exact served_versions_are_source. Qed.
 Print Assumptions C17_served_versions_are_source.
+
+(** ---- the webhook as deployed (Model/Deploy.v): document -> load -> ToPolicy -> validation ->
+    Admission config -> HandleValidate over the real sources ---- *)
+From Coq Require Import ZArith.
+From PSA Require Import Model.Pod Model.Admission Model.Sources Model.Webhook Model.Deploy Spec.PSS Spec.P02 Spec.PAdm
+     Corr.Deploy Proofs.C02_table Proofs.EndToEnd Proofs.DeployFacts.
+
+(** the server comes up exactly for the documents the specification accepts (acceptable shape,
+    served version, valid values), and then runs with exactly the default policy and the exemption
+    lists the document states, the 3000-pod cap and the 1 s budget ([s_config], Corr/Deploy.v) *)
+Theorem C17_deploy_is_spec : forall i, well_tagged_input i -> deploy i = s_config i.
+Proof. exact C17_deploy_is_spec_proof. Qed.
+Print Assumptions C17_deploy_is_spec.
+
+(** "comes up only if ... and then runs with exactly ..." needs no hypothesis *)
+Theorem C17_deploy_sound : forall i c, deploy i = Some c -> s_config i = Some c.
+Proof. exact C17_deploy_sound_proof. Qed.
+Print Assumptions C17_deploy_sound.
+
+Example C17_deploy_is_spec_needs_hyp :
+  let d := [MUnknown "defaults"; MApiVersion (config_group ++ "/v1"); MKind config_kind]%string in
+  ~ well_tagged d /\ deploy (InDoc d) = None
+  /\ s_config (InDoc d)
+     = Some (Config (Policy (LV Privileged Latest) (LV Privileged Latest) (LV Privileged Latest)) [] [] [] 3000 1000000000%Z).
+Proof. exact C17_deploy_is_spec_needs_hyp_proof. Qed.
+Print Assumptions C17_deploy_is_spec_needs_hyp.
+
+Theorem C17_deploy_defaults_stated : forall d c, deploy (InDoc d) = Some c ->
+  cf_ex_namespaces c = s_list "namespaces" d /\ cf_ex_users c = s_list "usernames" d
+  /\ cf_ex_rcs c = s_list "runtimeClasses" d
+  /\ cf_max_pods c = 3000 /\ cf_timeout c = 1000000000%Z
+  /\ spec_level_of (s_value "enforce" "privileged" d) = Some (lv_level (enforce (cf_defaults c)))
+  /\ spec_version_of (s_value "enforce-version" "latest" d) = Some (lv_version (enforce (cf_defaults c)))
+  /\ spec_level_of (s_value "audit" "privileged" d) = Some (lv_level (audit (cf_defaults c)))
+  /\ spec_version_of (s_value "audit-version" "latest" d) = Some (lv_version (audit (cf_defaults c)))
+  /\ spec_level_of (s_value "warn" "privileged" d) = Some (lv_level (warn (cf_defaults c)))
+  /\ spec_version_of (s_value "warn-version" "latest" d) = Some (lv_version (warn (cf_defaults c))).
+Proof. exact C17_deploy_defaults_stated_proof. Qed.
+Print Assumptions C17_deploy_defaults_stated.
+
+(** an unlabelled namespace is judged by exactly the stated defaults *)
+Theorem C17_deploy_unlabelled_namespace : forall i c, deploy i = Some c ->
+  policy_to_evaluate [] (cf_defaults c) = (cf_defaults c, []).
+Proof. exact C17_deploy_unlabelled_namespace_proof. Qed.
+Print Assumptions C17_deploy_unlabelled_namespace.
+
+(** document in, verdict out: deploy, the sources, the webhook, the admission layer and the standard composed *)
+Theorem C17_end_to_end : forall i relax cl f now q uid r w0 c ls p m,
+  deploy i = Some c ->
+  hq_has_body q = true -> N.ltb (hq_size q) max_request_size = true ->
+  hq_ctype q = "application/json"%string -> hq_payload q = Review uid r w0 ->
+  evaluated_pod c r (world_of production_wiring cl f (r_namespace r) None now) = Some (ls, p) ->
+  api_valid p = true -> relaxed_for relax p = false ->
+  effective_minor (lv_version (enforce (spec_policy ls (cf_defaults c)))) = Some m ->
+  exists resp, full_stack i (shipped_evaluator relax) cl f now q = Some (HttpResponse 200 (Some (uid, resp)))
+               /\ rs_allowed resp = compliant (lv_level (enforce (spec_policy ls (cf_defaults c)))) m p.
+Proof. exact C17_end_to_end_proof. Qed.
+Print Assumptions C17_end_to_end.
+
+(** the same in an unlabelled namespace, with the level and version read off the document alone *)
+Theorem C17_end_to_end_unlabelled : forall d relax cl f now q uid r w0 c p l m,
+  deploy (InDoc d) = Some c ->
+  hq_has_body q = true -> N.ltb (hq_size q) max_request_size = true ->
+  hq_ctype q = "application/json"%string -> hq_payload q = Review uid r w0 ->
+  evaluated_pod c r (world_of production_wiring cl f (r_namespace r) None now) = Some ([], p) ->
+  api_valid p = true -> relaxed_for relax p = false ->
+  spec_level_of (s_value "enforce" "privileged" d) = Some l ->
+  (exists v, spec_version_of (s_value "enforce-version" "latest" d) = Some v /\ effective_minor v = Some m) ->
+  exists resp, full_stack (InDoc d) (shipped_evaluator relax) cl f now q = Some (HttpResponse 200 (Some (uid, resp)))
+               /\ rs_allowed resp = compliant l m p.
+Proof. exact C17_end_to_end_unlabelled_proof. Qed.
+Print Assumptions C17_end_to_end_unlabelled.
+
+(** non-vacuity: a v1beta1 document with members in an unusual order, enforce baseline, audit
+    restricted, kube-system exempt; the live namespace "ns" has no labels and is not cached; no
+    faults.  A CREATE of [example_pod] (Proofs/C02_table.v; it violates baseline) in "ns" is
+    answered 200 with the review's uid and denied; the same review in "kube-system" is allowed;
+    with ("enforce", "bogus") the server does not come up *)
+Example C17_end_to_end_in_scope :
+  let doc e := InDoc [MKind config_kind; MApiVersion (config_group ++ "/v1beta1");
+                      MDefaults [("enforce", e); ("audit", "restricted")];
+                      MExemptions [("namespaces", ["kube-system"])]]%string in
+  let cl := Cluster [] [("ns", []); ("kube-system", [])]%string [] [] in
+  let f := Faults None false in
+  let r ns := Request "" "pods" "" ns "p" "u" OpCreate (OPod example_pod) ONil None in
+  let q ns := HttpRequest true 2048 "application/json" (Review "uid-17" (r ns) (World None "" None None 0)) in
+  let answer e ns :=
+    option_map (fun h => (hs_status h, option_map (fun x => (fst x, rs_allowed (snd x))) (hs_review h)))
+               (full_stack (doc e) (shipped_evaluator false) cl f 0 (q ns)) in
+  well_tagged_input (doc "baseline"%string)
+  /\ deploy (doc "baseline"%string)
+     = Some (Config (Policy (LV Baseline Latest) (LV Restricted Latest) (LV Privileged Latest))
+                    ["kube-system"%string] [] [] 3000 1000000000%Z)
+  /\ (forall c, deploy (doc "baseline"%string) = Some c ->
+        evaluated_pod c (r "ns"%string) (world_of production_wiring cl f "ns" None 0) = Some ([], example_pod))
+  /\ answer "baseline"%string "ns"%string = Some (200%Z, Some ("uid-17"%string, false))
+  /\ answer "baseline"%string "kube-system"%string = Some (200%Z, Some ("uid-17"%string, true))
+  /\ deploy (doc "bogus"%string) = None
+  /\ answer "bogus"%string "ns"%string = None.
+Proof. exact C17_end_to_end_in_scope_proof. Qed.
+Print Assumptions C17_end_to_end_in_scope.
+
+Example C17_end_to_end_in_scope_hyps :
+  api_valid example_pod = true /\ relaxed_for false example_pod = false
+  /\ effective_minor Latest = Some newest_published
+  /\ compliant Baseline newest_published example_pod = false.
+Proof. exact DeployFacts.C17_end_to_end_in_scope_hyps. Qed.
+Print Assumptions C17_end_to_end_in_scope_hyps.
